@@ -177,7 +177,8 @@ PROPS = {
         explanation='quote selection of the printer: info::escape(v) returns q + v + q with q a quote character that does not occur in v, for every v that does not contain both quote characters, so the literal re-reads as v under productions [10]-[12]',
     ),
     'C11': dict(
-        standin_ops=['info.normalize_ws', 'info.equal_qname', 'info.attr_norm', 'info.attr_defaults'],
+        standin_ops=['info.normalize_ws', 'info.equal_qname', 'info.attr_norm', 'info.attr_defaults', 'info.attr_corpus'],
+        quick_grids=['info.attr_corpus'],
         verus_units=['info_helpers', 'c03_entity', 'c11_defaults'],
         level='proof',
         trusted_base=TRUSTED_VERUS,
